@@ -2,7 +2,7 @@
    Only statements, [exact], Print Assumptions and Examples live here. *)
 From Coq Require Import List NArith Arith Bool.
 From DS Require Import Gen.Constants Base.Bytes Base.Hash Base.HexId Base.FS Model.LocalStore
-     Proofs.LocalStoreProofs.
+     Model.Prune Proofs.LocalStoreProofs Proofs.PruneProofs.
 Import ListNotations.
 
 (* nameFromID: <base>/<first 4 hex digits>/<64 lower-case hex digits><ext>, ext = ".cacnk" (literal
@@ -85,6 +85,28 @@ Theorem C20_coexist_remove :
   get_chunk H zdecomp st2 i s' = get_chunk H zdecomp st2 i s /\ has_chunk st2 i s' = has_chunk st2 i s.
 Proof. exact remove_chunk_frame. Qed.
 Print Assumptions C20_coexist_remove.
+
+(* Both formats in one directory: whatever Prune (local or SFTP) of a store of one format returns, the
+   canonical file of EVERY id in the other format is exactly as before ... *)
+Theorem C20_prune_leaves_other_format : forall tmp_rule (st : store) keep fuel bstr s0 s' e j,
+  prune_gen tmp_rule fuel st bstr keep s0 = (s', e) -> wf_id j ->
+  stat (snd (name_from_id (mkStore (st_base st) (negb (st_unc st)) (st_skip st)) j)) s' =
+  stat (snd (name_from_id (mkStore (st_base st) (negb (st_unc st)) (st_skip st)) j)) s0.
+Proof. exact prune_leaves_other_format. Qed.
+Print Assumptions C20_prune_leaves_other_format.
+
+(* ... and so it is after Verify (with or without repair), which moreover reports no id whose own-format
+   file does not exist in its (existing) directory -- e.g. a chunk that is present only in the other format. *)
+Theorem C20_verify_leaves_other_format :
+  forall (H : bytes -> id) (zdecomp : bytes -> option bytes) (st : store) fuel bstr repair s0 s' msgs j,
+  is_dir (stat (st_base st) s0) = true ->
+  verify H zdecomp fuel st bstr repair s0 = (s', msgs, None) -> wf_id j ->
+  stat (snd (name_from_id (mkStore (st_base st) (negb (st_unc st)) (st_skip st)) j)) s' =
+  stat (snd (name_from_id (mkStore (st_base st) (negb (st_unc st)) (st_skip st)) j)) s0 /\
+  (is_dir (stat (fst (name_from_id st j)) s0) = true -> stat (snd (name_from_id st j)) s0 = None ->
+   ~ In j (reported msgs)).
+Proof. exact verify_leaves_other_format. Qed.
+Print Assumptions C20_verify_leaves_other_format.
 
 (* ---------- non-vacuity ---------- *)
 Definition ex_H (b : bytes) : id := fold_right N.add 0%N b.
